@@ -1,6 +1,7 @@
 package llo
 
 import (
+	"bytes"
 	"crypto/sha256"
 	"encoding/binary"
 	"errors"
@@ -119,7 +120,14 @@ func (p *Plugin) outcome(outctx ocr3types.OutcomeContext, query types.Query, aos
 	}
 	// Use predictable order for adding channels (id asc) so that extras that
 	// exceed the max are consistent across all nodes
-	sort.Slice(orderedHashes, func(i, j int) bool { return orderedHashes[i].ChannelID < orderedHashes[j].ChannelID })
+	sort.Slice(orderedHashes, func(i, j int) bool {
+		if orderedHashes[i].ChannelID != orderedHashes[j].ChannelID {
+			return orderedHashes[i].ChannelID < orderedHashes[j].ChannelID
+		}
+		// tie-break on the definition hash so that competing definitions for
+		// the same channel ID are applied in the same order on every node
+		return bytes.Compare(orderedHashes[i].ChannelHash[:], orderedHashes[j].ChannelHash[:]) < 0
+	})
 	for _, hwid := range orderedHashes {
 		voteCount := updateChannelVotesByHash[hwid.ChannelHash]
 		if voteCount <= p.F {
